@@ -35,5 +35,5 @@ pub fn strategy_for(tier: Tier) -> BoxedStrategy<Case> {
 }
 
 pub fn plan(tier: Tier) -> Plan<Case> {
-    Plan { strategy: strategy_for(tier), check, shrink_iters: 300, cases: match tier { Tier::Quick => 3_000, Tier::Thorough => 8_000 } }
+    Plan { strategy: strategy_for(tier), check, shrink_iters: 300, decode_bytes: None, cases: match tier { Tier::Quick => 3_000, Tier::Thorough => 8_000 } }
 }
